@@ -204,7 +204,7 @@ func c19Alphabet() []string {
 	for _, l := range c08Alphabet() {
 		a = append(a, l)
 	}
-	return append(a, "\r\n", "\"a\nb\"", "'q\\'q'", "日本", "\\{{", "\\@if", "{{-- c\nc --}}")
+	return append(a, "\r\n", "\"a\nb\"", "'q\\'q'", "日本", "\\{{", "\\@if", "{{-- c\nc --}}", "\xef\xbb\xbf", "\f", "\xc2\xa0")
 }
 
 func TestC19_LexemeSequences(t *testing.T) {
